@@ -140,6 +140,35 @@ def run(ctx):
     nf = forwarding_rule(ctx, "C12.route", ("checkpoint_callback", "checkpoint_every", "checkpoint_file_path"),
                          "with that sampler the checkpoint file / cadence / callback requested by the caller never reaches the SMC loop, so nothing (or only an in-memory copy) is checkpointed")
     ctx.floor("checkpoint options forwarded by sample() overrides", nf, 9)
+    # ---- the front end decides by *signature inspection* whether a sampler can checkpoint: the names it looks for must be named
+    #      parameters of sample() as resolved for every sampler class that inherits the checkpointing loop
+    A_ = repo.cls("aspire.aspire:Aspire")
+    sp_ = A_.methods["sample_posterior"]
+    probed = set()
+    for n_ in walk_no_nested(sp_.node):
+        if isinstance(n_, ast.Call) and isinstance(n_.func, ast.Attribute) and n_.func.attr in ("issubset", "issuperset") and isinstance(n_.func.value, ast.Set):
+            if any(isinstance(x, ast.Attribute) and x.attr == "parameters" for a_ in n_.args for x in ast.walk(a_)):
+                probed |= {e_.value for e_ in n_.func.value.elts if isinstance(e_, ast.Constant) and isinstance(e_.value, str)}
+        if isinstance(n_, ast.Compare) and isinstance(n_.left, ast.Constant) and isinstance(n_.left.value, str) and any(isinstance(o_, (ast.In, ast.NotIn)) for o_ in n_.ops) \
+                and any(isinstance(x, ast.Attribute) and x.attr == "parameters" for c_ in n_.comparators for x in ast.walk(c_)):
+            probed.add(n_.left.value)
+    from .smcloop import SMC as _SMC
+    smc_ = repo.cls(_SMC)
+    n_probe = 0
+    if not probed:
+        ctx.unknown("C12.probe", sp_.ident, loc_of(sp_), "the front end's test for checkpoint support was not recognised (expected a set of parameter names tested against signature(sample).parameters)")
+    for c_ in repo.subclasses(smc_):
+        sm_ = c_.resolve("sample")
+        if sm_ is None or not probed:
+            continue
+        named = set(sm_.params[1:]) | {x.arg for x in sm_.node.args.kwonlyargs}
+        miss = sorted(probed - named)
+        n_probe += 1
+        ctx.decide(not miss, "C12.probe", f"{c_.ident}.sample", loc_of(sm_), f"{c_.name}.sample names {sorted(probed)} in its signature: sample_posterior recognises its checkpoint support",
+                   f"{c_.name}.sample does not name {miss} in its signature (it {'takes them through **' + sm_.node.args.kwarg.arg if sm_.node.args.kwarg is not None else 'does not accept them'}), but "
+                   f"sample_posterior decides by signature inspection whether to hand on checkpoint_path: with this sampler the warning branch is taken, no checkpoint is written, "
+                   "and an interrupted run leaves a file with configuration and flow only", disc="|".join(miss))
+    ctx.floor("sampler classes probed for checkpoint support", n_probe, 4)
     # default wiring of the callback and the cadence
     from .smcloop import fold_sample
     sfd = fold_sample(repo, resumed=False, final=False)
@@ -464,6 +493,11 @@ MUTANTS += [
     M("requested cadence overwritten by one", _B, "if checkpoint_callback is not None and checkpoint_every is None:\n            checkpoint_every = 1", "if checkpoint_callback is not None or checkpoint_every is None:\n            checkpoint_every = 1", "C12.default"),
     M("given callback replaced by the default", _B, "if checkpoint_callback is None and checkpoint_every is not None:", "if checkpoint_every is not None:", "C12.default"),
     M("default cadence is every second iteration", _B, "checkpoint_every = 1\n", "checkpoint_every = 2\n", "C12.default"),
+]
+MUTANTS += [
+    M("blackjax sample() takes the checkpoint options through **kwargs", "src/aspire/samplers/smc/blackjax.py", "checkpoint_every: int | None = None,\n        checkpoint_file_path: str | None = None,\n        resume_from: str | bytes | dict | None = None,\n    ):\n        \"\"\"Sample using BlackJAX SMC.",
+      "resume_from: str | bytes | dict | None = None,\n        **kwargs,\n    ):\n        \"\"\"Sample using BlackJAX SMC.", "C12.probe",
+      more=[("checkpoint_every=checkpoint_every,\n            checkpoint_file_path=checkpoint_file_path,\n            resume_from=resume_from,\n        )\n\n    def mutate(self, particles, beta, n_steps=None):\n        \"\"\"Mutate particles using BlackJAX", "resume_from=resume_from,\n            **kwargs,\n        )\n\n    def mutate(self, particles, beta, n_steps=None):\n        \"\"\"Mutate particles using BlackJAX")]),
 ]
 NEUTRALS = [
     __import__("aspire_sa.rules.smcloop", fromlist=["HELPER_NEUTRAL"]).HELPER_NEUTRAL,
